@@ -105,6 +105,14 @@ fn adl_part(args: &Args, shard: u64, m: &mut Monitor) {
         let sol = w.add_token("SOL", 9, 4, false);
         let usdc = w.add_token("USDC", 6, 6, false);
         let mk = w.add_market(btc, sol, usdc);
+        for (k, v) in [
+            ("max_pool_amount_for_long_token", 1_000_000_000_000_000_000u128),
+            ("max_pool_amount_for_short_token", 1_000_000_000_000_000_000u128),
+            ("max_pool_value_for_deposit_for_long_token", 1_000_000_000 * UNIT),
+            ("max_pool_value_for_deposit_for_short_token", 1_000_000_000 * UNIT),
+        ] {
+            let _ = w.set_market_config(mk, k, v);
+        }
         let is_long = rng.bool();
         let max_adl = rng.range_u128(5, 40) * UNIT / 100;
         let min_after = max_adl / rng.range_u128(2, 5);
